@@ -28,6 +28,7 @@ type State struct {
 	Ghost        map[string]Term
 	Base         string // generation of lazily created map/ghost symbols (changes at a full havoc)
 	HeadSt       *State // the state at the last loop head crossed (nil outside loops): loophead(e)
+	Iter         map[*ssa.Range]Term // map iterators: the set of keys already produced (Array K Bool)
 }
 
 func (s *State) Clone() *State {
@@ -51,6 +52,12 @@ func (s *State) Clone() *State {
 		n.Ghost[k] = v
 	}
 	n.Defers = append([]deferred(nil), s.Defers...)
+	if len(s.Iter) > 0 {
+		n.Iter = make(map[*ssa.Range]Term, len(s.Iter))
+		for k, v := range s.Iter {
+			n.Iter[k] = v
+		}
+	}
 	return n
 }
 
@@ -236,6 +243,28 @@ func (x *Exec) merge(edges []edge) *State {
 			n.Base = fmt.Sprintf("m%d", x.baseCounter)
 			break
 		}
+	}
+	iters := map[*ssa.Range]bool{}
+	for _, e := range edges {
+		for k := range e.st.Iter {
+			iters[k] = true
+		}
+	}
+	for k := range iters {
+		k := k
+		all := true
+		for _, e := range edges {
+			if _, ok := e.st.Iter[k]; !ok {
+				all = false
+			}
+		}
+		if !all {
+			continue // not started on every path: unknown set
+		}
+		if n.Iter == nil {
+			n.Iter = map[*ssa.Range]Term{}
+		}
+		n.Iter[k] = x.mergeTerm("iterseen", edges, func(s *State) Term { return s.Iter[k] })
 	}
 	n.Frontier = x.mergeTerm("frontier", edges, func(s *State) Term { return s.Frontier })
 	n.IterFrontier = x.mergeTerm("iterfrontier", edges, func(s *State) Term { return s.IterFrontier })
